@@ -378,6 +378,29 @@ def test_session_header_constants_exist() -> None:
     assert SESSION_ACCEPT_HEADER == "VGI-Session-Accept"
 
 
+def test_only_the_minted_token_text_opens() -> None:
+    """Re-encoded forms of a token (padding, standard alphabet, trailing bits) are rejected."""
+    from vgi_rpc.http.server._state_token import _compute_aad
+    from vgi_rpc.http.server._sticky import _open_session_token, _seal_session_token
+
+    aad = _compute_aad(None)
+    # A 3-byte server_id leaves unused trailing bits in the last character.
+    token = _seal_session_token("abc", b"\x01" * 12, 2_000_000_000, _TOKEN_KEY, aad)
+    assert _open_session_token(token, _TOKEN_KEY, aad)[:2] == ("abc", b"\x01" * 12)
+    last = "ABCDEFGHIJKLMNOPQRSTUVWXYZabcdefghijklmnopqrstuvwxyz0123456789-_".index(token[-1])
+    variants = [
+        token + "=",
+        token + "====",
+        token[:8] + "\n" + token[8:],
+        token[:-1] + "ABCDEFGHIJKLMNOPQRSTUVWXYZabcdefghijklmnopqrstuvwxyz0123456789-_"[last ^ 1],
+        token.replace("-", "+").replace("_", "/") if ("-" in token or "_" in token) else token + "=",
+    ]
+    for variant in variants:
+        assert variant != token
+        with pytest.raises(SessionLostError):
+            _open_session_token(variant, _TOKEN_KEY, aad)
+
+
 # ---------------------------------------------------------------------------
 # Echo headers (PR2)
 # ---------------------------------------------------------------------------
